@@ -42,6 +42,10 @@ deriving Repr, DecidableEq
 def Fixes.none : Fixes := {}
 def Fixes.all : Fixes := { f4 := true, f23 := true, f22 := true, fzomb := true, fstale := true, f31 := true }
 
+/-- the repairs the repository contains now (`fix:` commits); the correspondence harness runs the model
+with exactly this value (`FX=current`), and the property theorems are stated for it -/
+def Fixes.current : Fixes := Fixes.all
+
 /-- the painting loop: returns the calls made, `real_height`, and for the last line written the
 pair (number of lines written, filler needed on it) -/
 def paintLoop (fx : Fixes) (W H total : Nat) (nothingCleared : Bool) : Nat → Nat → List Line → List TOp × Nat × Option (Nat × Nat)
